@@ -497,37 +497,45 @@ pub fn tworlds(id: &str, tier: Tier) -> Vec<crate::threaded::TSpec> {
             add("toy fetch_add counter".into(), TKind::ToyCounter { atomic_rmw: true }, 2, false, None, u32::MAX);
         },
         "C18" => {
-            let p = if quick { 2 } else { 3 };
+            let p = if quick { 3 } else { 4 };
             for (kind, name) in [(TKind::Merge(2), "merge/2"), (TKind::Combine(2), "combine/2")] {
                 add(name.into(), kind.clone(), 2, false, None, p);
+                add(name.into(), kind.clone(), 2, true, None, if quick { 2 } else { 3 });
                 add(name.into(), kind.clone(), 1, true, None, p);
                 add(name.into(), kind.clone(), 1, false, Some(1), p);
-                add(name.into(), kind.clone(), 1, false, None, if quick { 3 } else { u32::MAX });
+                add(name.into(), kind.clone(), 2, false, Some(0), if quick { 2 } else { 3 });
+                add(name.into(), kind.clone(), 1, false, None, u32::MAX);
                 if !quick {
-                    add(name.into(), kind.clone(), 2, true, None, p);
-                    add(name.into(), kind.clone(), 2, false, Some(0), p);
-                    add(name.into(), kind.clone(), 3, false, None, 2);
+                    add(name.into(), kind.clone(), 1, true, None, u32::MAX);
+                    add(name.into(), kind.clone(), 3, false, None, 3);
+                    add(name.into(), kind.clone(), 1, true, Some(0), 4);
                 }
             }
             for (kind, name) in [(TKind::Merge(3), "merge/3"), (TKind::Combine(3), "combine/3")] {
                 add(name.into(), kind.clone(), 1, false, None, if quick { 2 } else { 3 });
+                add(name.into(), kind.clone(), 1, true, None, if quick { 1 } else { 2 });
                 if !quick {
-                    add(name.into(), kind.clone(), 1, true, None, 2);
                     add(name.into(), kind.clone(), 2, false, None, 2);
-                    add(name.into(), kind.clone(), 1, false, Some(2), 2);
+                    add(name.into(), kind.clone(), 1, false, Some(2), 3);
                 }
             }
         },
         "C19" => {
-            let p = if quick { 2 } else { 3 };
+            let p = if quick { 3 } else { 4 };
             for n in 1..=3usize {
                 add(format!("take({n}) direct x2"), TKind::TakeDirect { n, threads: 2 }, 2, false, None, p);
                 add(format!("take({n}) direct x3"), TKind::TakeDirect { n, threads: 3 }, 1, false, None, if quick { 2 } else { 3 });
                 add(format!("take({n}) . merge/2"), TKind::TakeMerge { n, members: 2 }, 2, false, None, p);
+                if n <= 2 {
+                    add(format!("take({n}) direct x2"), TKind::TakeDirect { n, threads: 2 }, 1, false, None, u32::MAX);
+                }
                 if !quick {
-                    add(format!("take({n}) direct x2"), TKind::TakeDirect { n, threads: 2 }, 3, false, None, 2);
-                    add(format!("take({n}) . merge/3"), TKind::TakeMerge { n, members: 3 }, 1, false, None, 2);
                     add(format!("take({n}) direct x2"), TKind::TakeDirect { n, threads: 2 }, 2, false, None, u32::MAX);
+                    add(format!("take({n}) direct x2"), TKind::TakeDirect { n, threads: 2 }, 3, false, None, 3);
+                    add(format!("take({n}) . merge/3"), TKind::TakeMerge { n, members: 3 }, 1, false, None, 3);
+                    if n <= 2 {
+                        add(format!("take({n}) . merge/2"), TKind::TakeMerge { n, members: 2 }, 1, false, None, u32::MAX);
+                    }
                 }
             }
         },
